@@ -23,6 +23,16 @@ class MachineryError(Exception):
     pass
 
 
+def _die_with_parent():
+    """preexec_fn: the JVM is killed when the harness process that started it dies (no orphaned TLC)."""
+    try:
+        import ctypes
+        import signal
+        ctypes.CDLL('libc.so.6').prctl(1, signal.SIGKILL)      # PR_SET_PDEATHSIG
+    except Exception:       # noqa
+        pass
+
+
 def scratch(name):
     d = os.path.join(BUILD, '%s-%d-%d' % (name, os.getpid(), int(time.time() * 1000) % 100000000))
     os.makedirs(d, exist_ok=True)
@@ -63,7 +73,7 @@ def run_tlc(module, cfg_text, env=None, workers=1, timeout=900, extra=(), xmx='3
     t0 = time.time()
     try:
         p = subprocess.run(cmd, cwd=SPEC, env=e, stdout=subprocess.PIPE, stderr=subprocess.STDOUT,
-                           timeout=timeout)
+                           timeout=timeout, preexec_fn=_die_with_parent)
         out = p.stdout.decode('utf-8', 'replace')
         rc = p.returncode
     except subprocess.TimeoutExpired as ex:
@@ -134,7 +144,7 @@ def validate(module, traces, tables=None, shards=None, timeout=1800, extra_env=N
         t0 = time.time()
         try:
             p = subprocess.run(cmd, cwd=SPEC, env=e, stdout=subprocess.PIPE, stderr=subprocess.STDOUT,
-                               timeout=timeout)
+                               timeout=timeout, preexec_fn=_die_with_parent)
             return p.returncode, p.stdout.decode('utf-8', 'replace'), time.time() - t0, ' '.join(cmd)
         except subprocess.TimeoutExpired as ex:
             return -9, (ex.stdout or b'').decode('utf-8', 'replace') + '\nTIMEOUT', time.time() - t0, ' '.join(cmd)
